@@ -39,7 +39,8 @@ CF_Remove == <<[n |-> "a", r |-> "-", what |-> "W"], [n |-> "a", r |-> "-", what
 CF_Fill == <<[n |-> "a", r |-> "-", solvent |-> "W", u |-> "L"], [n |-> "a", r |-> "-", solvent |-> "D", u |-> "g"],
              [n |-> "b", r |-> "-", solvent |-> "W", u |-> "L"], [n |-> "b", r |-> "-", solvent |-> "W", u |-> "mol"],
              [n |-> "b", r |-> "-", solvent |-> "N", u |-> "g"], [n |-> "c", r |-> "-", solvent |-> "W", u |-> "L"],
-             [n |-> "c", r |-> "-", solvent |-> "E", u |-> "g"], [n |-> "c", r |-> "-", solvent |-> "D", u |-> "mol"]>>
+             [n |-> "c", r |-> "-", solvent |-> "E", u |-> "g"], [n |-> "c", r |-> "-", solvent |-> "D", u |-> "mol"],
+             [n |-> "c", r |-> "-", solvent |-> "N", u |-> "L"], [n |-> "a", r |-> "-", solvent |-> "N", u |-> "L"]>>   \* a solid by volume
 CF_FillDeltas == {One, R(1, 2), R(-1, 2)}
 DC(n, solute, nu, du, solvent) == [n |-> n, solute |-> solute, nu |-> nu, du |-> du, solvent |-> solvent]
 CF_Dilute == <<DC("a", "N", "mol", "L", "W"), DC("a", "N", "g", "g", "W"), DC("a", "N", "g", "L", "D"),
@@ -179,6 +180,8 @@ SOL_From(quick) ==
       src \in {"k1", "k2"}, fx \in {R(1, 2), R(1, 4)}, y \in {R(1, 4), R(1, 2), R(3, 2)}, nu \in {"mol", "g"}, du \in {"L", "g"}, tu \in {"L", "g"}}
   \cup {FR(src, "N", "vr", R(1, 2), y, nu, du, tu) :        \* the target lies between the stock's and the diluent's concentration
       src \in {"k1", "k2"}, y \in {R(1, 4), R(1, 2)}, nu \in {"mol", "g"}, du \in {"L", "g"}, tu \in {"L", "g", "mol"}}
+  \* a target below the diluent's own concentration (and below the stock's): unreachable
+  \cup {FR("k1", "N", "vs", R(-1, 8), R(3, 4), nu, du, tu) : nu \in {"mol", "g"}, du \in {"L", "g"}, tu \in {"L", "g"}}
   \cup {FR("k2", "D", "W", R(1, 2), I(2), nu, du, "L") : nu \in {"mol", "L"}, du \in {"L", "mol"}}
   \cup {FR("v", "N", "W", R(1, 2), I(2), "mol", "L", "L")}     \* the source does not contain the solute
 SOL_FromQuick == SOL_From(TRUE)
